@@ -317,6 +317,14 @@ class FileModel:
     """`with open(...) as f:` - the file object is bound, the body runs, the file is closed on every exit of the block."""
     assumed = ["open(path, 'rb') as f; f.read(): the bytes stored at that path (whole file, no decoding); the with block closes the file"]
 
+    def call_method(self, I, st, recv, name, args, kwargs, node):
+        # methods of the file object, whatever local name the code gives it
+        if isinstance(recv, Ref) and isinstance(st.obj(recv), RecObj) and st.obj(recv).cls == "BinaryFile" and name == "read":
+            site = getattr(node, "lineno", None)
+            I.oblige(st, f"C16.reads_the_whole_file@L{site}", z3.BoolVal(len(args) == 0 and not kwargs), "post", site)
+            return FILE_BYTES(st.obj(recv).fields["_path"])
+        return NotImplemented
+
     def with_stmt(self, I, st, s):
         if len(s.items) != 1:
             return NotImplemented
@@ -357,12 +365,7 @@ class ReadImageData(Contract):
             st.ghost["opened"] = tuple(st.ghost.get("opened", ())) + (site,)
             return st.alloc(RecObj("BinaryFile", {"_path": tgt[1] if isinstance(tgt, tuple) else None}, fresh=True))
 
-        def h_read(I, st, args, kwargs, node):
-            site = getattr(node, "lineno", None)
-            I.oblige(st, f"C16.reads_the_whole_file@L{site}", z3.BoolVal(len(args) == 0 and not kwargs), "post", site)
-            f = st.obj(I.lookup(st, "f"))
-            return FILE_BYTES(f.fields["_path"])
-        return {"open": h_open, "f.read": h_read}
+        return {"open": h_open}
 
     def setup_loops(self, c):
         self._v = c.v
